@@ -187,7 +187,7 @@ func genC07u(t *rapid.T) c07uCase {
 		n := rapid.IntRange(1, 10).Draw(t, "n")
 		c.B = genPhoneBytes(t, n, "b")
 	case "gbk":
-		c.S = genGBKText(t, 60, "s")
+		c.S = genGBKText(t, rapid.SampledFrom([]int{60, 255}).Draw(t, "smax"), "s")
 	case "fill":
 		c.S = genStr(t, 0, 40, true, "s")
 		c.N = rapid.IntRange(0, 50).Draw(t, "n")
